@@ -134,6 +134,11 @@ def run(c, facts, tier):
             continue
         fr = kw.flatten_rest(g, a.rest)
         if not any(x["keep"] for x in fr):
+            # a keyword without argument: whatever follows it in the alternative is a guard (the word boundary).  A guard that
+            # fails must fail softly — under cut_err the lexer stops in the middle of a longer unknown word (`-emptyx`) and the
+            # message quotes its tail (`x`) instead of the word
+            hard = [peg.show(x["n"])[:40] for x in fr if x["cut"]]
+            c.ob("C18.position", a.site, "%s (no argument): an unknown longer word is reported whole" % a.lit, not hard, "guards after %r fail softly: the other alternatives and the unknown-word fallback see the whole word" % a.lit if not hard else "guard %s after %r is under cut_err: `%sx` stops the lexer behind %r and the message quotes `x`, not `%sx`" % (hard, a.lit, a.lit, a.lit, a.lit), witness="%sx" % a.lit if hard else None, nontrivial=False)
             continue
         narg += 1
         labels = [s_ for kind, s_ in a.labels if kind == "label"]
